@@ -734,7 +734,7 @@ func (dht *FullRT) SearchValue(ctx context.Context, key string, opts ...routing.
 	}
 
 	stopCh := make(chan struct{})
-	valCh, lookupRes := dht.getValues(ctx, key)
+	valCh, lookupRes := dht.getValues(ctx, key, stopCh)
 
 	out := make(chan []byte)
 	go func() {
@@ -864,7 +864,7 @@ type lookupWithFollowupResult struct {
 	peers []peer.ID // the top K not unreachable peers at the end of the query
 }
 
-func (dht *FullRT) getValues(ctx context.Context, key string) (<-chan RecvdVal, <-chan *lookupWithFollowupResult) {
+func (dht *FullRT) getValues(ctx context.Context, key string, stopCh <-chan struct{}) (<-chan RecvdVal, <-chan *lookupWithFollowupResult) {
 	valCh := make(chan RecvdVal, 1)
 	lookupResCh := make(chan *lookupWithFollowupResult, 1)
 
@@ -899,20 +899,20 @@ func (dht *FullRT) getValues(ctx context.Context, key string) (<-chan RecvdVal, 
 	go func() {
 		defer close(valCh)
 		defer close(lookupResCh)
-		queryFn := func(ctx context.Context, p peer.ID) error {
+		queryFn := func(opCtx context.Context, p peer.ID) error {
 			// For DHT query command
-			routing.PublishQueryEvent(ctx, &routing.QueryEvent{
+			routing.PublishQueryEvent(opCtx, &routing.QueryEvent{
 				Type: routing.SendingQuery,
 				ID:   p,
 			})
 
-			rec, peers, err := dht.protoMessenger.GetValue(ctx, p, key)
+			rec, peers, err := dht.protoMessenger.GetValue(opCtx, p, key)
 			if err != nil {
 				return err
 			}
 
 			// For DHT query command
-			routing.PublishQueryEvent(ctx, &routing.QueryEvent{
+			routing.PublishQueryEvent(opCtx, &routing.QueryEvent{
 				Type:      routing.PeerResponse,
 				ID:        p,
 				Responses: peers,
@@ -933,12 +933,19 @@ func (dht *FullRT) getValues(ctx context.Context, key string) (<-chan RecvdVal, 
 				return nil
 			}
 
-			// the record is present and valid, send it out for processing
+			// The record is present and valid, send it out for processing. The
+			// hand-over is not bound by opCtx: execOnMany cancels that context
+			// as soon as enough peers have answered, and it times out, so a
+			// value that was received and approved would be dropped merely
+			// because the consumer was not reading at that moment. It ends
+			// when the search has stopped (quorum reached) or the caller's
+			// context has.
 			select {
 			case valCh <- RecvdVal{
 				Val:  val,
 				From: p,
 			}:
+			case <-stopCh:
 			case <-ctx.Done():
 				return ctx.Err()
 			}
